@@ -4,6 +4,7 @@
 (* comparison results recorded from the real encoders, decoders and framers.   *)
 EXTENDS VerifTrace, FiniteSets
 D == INSTANCE CodecDefs
+S == INSTANCE CodecSSEDefs
 
 VARIABLE l
 MInit == l = 1 /\ MarkInit
@@ -86,6 +87,18 @@ WwChecks(e) ==
   /\ Check(l, "FramesIntact", D!FramesIntact(e.c, e.o))
   /\ Check(l, "drift", e.o.frames \in AsSet(e.c.orders))
 
+\* a stream that breaks under the real readers (machine: CodecSSE.tla): the case carries what TLC derived for it -
+\* frames written (n), frames whole before the cut (k), the same counted in messages for the streamable client
+\* (nm, km) and the code-shaped outcome (exp; for scanEvents and ioConn)
+ScChecks(e) ==
+  LET c == e.c
+      o == [evs |-> e.o.evs, err |-> e.o.err, lastid |-> e.o.lastid]
+      n == IF c.path = "stream" THEN c.nm ELSE c.n
+      k == IF c.path = "stream" THEN c.km ELSE c.k
+  IN /\ Check(l, "ScDelivered", S!ScDelivered(n, o))
+     /\ Check(l, "ScNoGaps", S!ScNoGaps(k, o))
+     /\ Check(l, "drift", c.path = "stream" \/ o = c.exp)
+
 MNext == /\ l <= NLines /\ l' = l + 1
          /\ LET e == TraceLog[l] IN
               CASE e.k = "msg"  -> MsgChecks(e)
@@ -99,6 +112,7 @@ MNext == /\ l <= NLines /\ l' = l + 1
                 [] e.k = "lt"   -> LtChecks(e)
                 [] e.k = "lb"   -> LbChecks(e)
                 [] e.k = "ww"   -> WwChecks(e)
+                [] e.k = "sc"   -> ScChecks(e)
 MSpec == MInit /\ [][MNext]_l
 MMark == MarkAt(l)
 MAccepted == Accepted
